@@ -349,7 +349,11 @@ void Future<void>::Private::FastSignal::set()
 void Future<void>::Private::FastSignal::reset()
 {
   if (Atomic::swap(_state, 0) == 1)
+  {
     _signal.reset();
+    if (Atomic::load(_state) == 1)
+      _signal.set(); // a set() slipped in between the two steps above: its wake-up must not be erased
+  }
 }
 
 bool Future<void>::Private::FastSignal::wait()
